@@ -388,7 +388,8 @@ def halfPi : Float := 1.5707963267948966
 def twoPi : Float := 6.283185307179586
 
 def unit (v : P3) : P3 := let n := Float.sqrt (dot v v); ⟨v.x / n, v.y / n, v.z / n⟩
-def latOf (p : P3) : Float := Float.asin (if p.z < -1 then -1 else if 1 < p.z then 1 else p.z)
+/-- latitude by `atan2(z, √(x²+y²))`: well-conditioned at the poles (unlike `asin z`) -/
+def latOf (p : P3) : Float := Float.atan2 p.z (Float.sqrt (p.x * p.x + p.y * p.y))
 /-- longitude in `[0, 2π)` -/
 def lonOf (p : P3) : Float :=
   let l := Float.atan2 p.y p.x
@@ -406,9 +407,13 @@ def arcSamples (k : Nat) (a b : P3) : List P3 :=
 
 /-- north-most and south-most point of the arc's great circle, kept when strictly inside the arc -/
 def arcApex (a b : P3) : List P3 :=
-  let n := cross a b
+  -- plane normal as `a × (b − a)`: no cancellation for arcs of any length (down to sub-metre edges)
+  let n0 := cross a (vsub b a)
+  let nn := Float.sqrt (dot n0 n0)
+  if nn == 0 then [] else
+  let n : P3 := ⟨n0.x / nn, n0.y / nn, n0.z / nn⟩
   let m : P3 := ⟨-(n.x * n.z), -(n.y * n.z), n.x * n.x + n.y * n.y⟩
-  if dot m m < 1e-30 then [] else
+  if dot m m < 1e-30 then [] else      -- the arc lies on the equator: no apex
     let m := unit m
     let inside (q : P3) : Bool := 0 < dot (cross a q) n && 0 < dot (cross q b) n
     (if inside m then [m] else []) ++ (if inside (vneg m) then [vneg m] else [])
